@@ -260,7 +260,10 @@ def execute(sc, ctx) -> None:
             s, gulp = op["skipback"], op["gulp"]
             step = max(1, eff - s)
             nblocks_est = nsamps // step + 3
-            sim.begin_op(i, budget=8 * nblocks_est * (nfiles + 2) + 32)
+            budget = 8 * nblocks_est * (nfiles + 2) + 32
+            if op.get("k4") and not sc["faults"]:
+                budget += 8 * (N // max(1, op["k4"]) + 3) * (nfiles + 2)  # the second reader's own blocks
+            sim.begin_op(i, budget=budget)
             # R4: the last file shrinks underneath the open reader before this plan starts
             for f in sim.faults:
                 if f["kind"] == "R4" and f["op"] == i and not f.get("_done"):
